@@ -660,10 +660,13 @@ func check(prop, tier string) int {
 	if agg.Runs > 0 && float64(agg.CapHits)/float64(agg.Runs) > 0.01 {
 		exit2 = fmt.Sprintf("%d of %d runs hit a cap (>1%%)", agg.CapHits, agg.Runs)
 	}
-	if detMismatch > 0 && (detMismatch > 3 || detMismatch*100 > detChecked) {
-		// an isolated mismatch can come from the OS descheduling a worker in the
-		// middle of a step (reported in evidence); several mean a real leak of
-		// nondeterminism into the simulator
+	if detMismatch > 0 && (detMismatch > 6 || detMismatch*1000 > detChecked*15) {
+		// isolated mismatches come from the Go runtime's unseedable choice among
+		// several ready cases of a library select (measured: up to 0.06 % of the
+		// runs, DESIGN.md section 4) or from the OS descheduling a worker in the
+		// middle of a step; they are reported in the evidence. More than 6, or
+		// more than 1.5 % of the re-executed runs, mean a real leak of
+		// nondeterminism into the simulator (such leaks showed as 25 % and more)
 		exit2 = fmt.Sprintf("nondeterminism: %d of %d re-executed runs had a different trace hash", detMismatch, detChecked)
 	}
 	if unreproduced > 3 {
